@@ -43,6 +43,14 @@ def c16_differential(pid, stage, tier, seed, outdir, chk):
         if "build_error" in mc:
             return mc
         reattribute(mc, name)
+        # a failing sink in this build: every call position of the scenario corpus, and random scenarios (a tenth of C14's budget)
+        for wl14, extra in (("C14", []), ("C14-random", ["--scale", "0.1"])):
+            st = {"variant": name, "workload": wl14, "crash_props": ["C16"], "args": extra}
+            m14 = chk.run_stage(pid, st, tier, seed, outdir)
+            if "build_error" in m14:
+                return m14
+            reattribute(m14, name)
+            chk.merge_merged(total, m14)
         st = {"variant": name, "workload": "C16", "crash_props": ["C16"]}
         m = chk.run_stage(pid, st, tier, seed, outdir)
         if "build_error" in m:
